@@ -955,6 +955,11 @@ namespace awkward {
     size_t i = 0;
     for (;  i < others.size();  i++) {
       ContentPtr other = others[i];
+      while (VirtualArray* raw = dynamic_cast<VirtualArray*>(other.get())) {
+        // what a virtual array has to be merged as is only known once it is
+        // materialized (an indexed/option/union array goes to the tail)
+        other = raw->array();
+      }
       if (dynamic_cast<IndexedArray32*>(other.get())  ||
           dynamic_cast<IndexedArrayU32*>(other.get())  ||
           dynamic_cast<IndexedArray64*>(other.get())  ||
@@ -968,9 +973,6 @@ namespace awkward {
           dynamic_cast<UnionArray8_64*>(other.get())) {
         break;
       }
-      else if (VirtualArray* raw = dynamic_cast<VirtualArray*>(other.get())) {
-        head.push_back(raw->array());
-      }
       else {
         head.push_back(other);
       }
@@ -978,6 +980,9 @@ namespace awkward {
 
     for (;  i < others.size();  i++) {
       ContentPtr other = others[i];
+      while (VirtualArray* raw = dynamic_cast<VirtualArray*>(other.get())) {
+        other = raw->array();
+      }
       tail.push_back(other);
     }
 
